@@ -5,7 +5,7 @@ CHECK_DEADLOCK FALSE
 CONSTANTS
  HonorsHost = FALSE
  SchemeBound = TRUE
- FoldCase = FALSE
+ FoldCase = TRUE
  StripOnRedirect = TRUE
  MaxFaults = 3
  Confs <- QuickGenConfs
